@@ -10,9 +10,10 @@ from gen import serial as G
 
 ID = "C15"
 PROPS = ["IsoVerif/Props/C15.lean", "IsoVerif/Props/C15Objects.lean", "IsoVerif/Props/C15Stream.lean",
-         "IsoVerif/Props/C15Domain.lean", "IsoVerif/Props/C15Reuse.lean", "IsoVerif/Props/C15Printers.lean"]
+         "IsoVerif/Props/C15Domain.lean", "IsoVerif/Props/C15Reuse.lean", "IsoVerif/Props/C15Printers.lean",
+         "IsoVerif/Props/C15Penalty.lean"]
 TARGETS = ["IsoVerif.Props.C15", "IsoVerif.Props.C15Objects", "IsoVerif.Props.C15Stream", "IsoVerif.Props.C15Domain",
-           "IsoVerif.Props.C15Reuse", "IsoVerif.Props.C15Printers"]
+           "IsoVerif.Props.C15Reuse", "IsoVerif.Props.C15Printers", "IsoVerif.Props.C15Penalty"]
 # the reuse clause composes the models of C08 / C02 / C12 (Model/Reuse.lean), hence their generated tables
 GEN_DEPS = ["Constants", "Enums", "EventClasses", "Strategies", "Prims", "Resolver", "CounterTables", "Weights",
             "PrinterTables"]
@@ -54,7 +55,11 @@ ASSUMPTIONS = ["CPython int = Lean Int; Python str without lone surrogates = Lea
                "penalty floats are passed as exact fractions; float*2^20, int() and n/2^20 are exact for the values involved "
                "(power-of-two scaling), so the model's rational arithmetic is the float arithmetic",
                "BasicReadAssignment.genes/isoforms are sorted(set(...)): Python orders str by code point, as Lean orders String",
-               "at end of file `inf.read(k)` returns fewer bytes and never raises (modelled as take/drop)"]
+               "at end of file `inf.read(k)` returns fewer bytes and never raises (modelled as take/drop)",
+               "reuse clause: NoSuspendedInput and pairwise different assignment ids per dump are facts about the unmodelled "
+               "collecting stage: MONITORED on the kept dumps of the saving run (harness/gen/savedumps.py); MemoryModeOk / "
+               "NonNegFirst is proved for the modelled assigner in Props/C15Penalty.lean under a hypothesis on the comparator's "
+               "index ranges (monitored: harness/mon_wrap.py `c14events`, `penalty` in the C14 / C11 / C01 pipeline runs)"]
 
 WRITE_ERRORS = (OverflowError, AssertionError, ValueError, TypeError, AttributeError, IndexError, KeyError)
 READ_ERRORS = (ValueError, IndexError, AssertionError, OverflowError, TypeError, KeyError, AttributeError)
@@ -1218,6 +1223,26 @@ def compare_outputs(run):
     return None
 
 
+def dump_hypothesis_problems(ctx, run):
+    """the kept `S.save_<chr>` dumps of saving run A (snapshot taken right after A): no `suspended` record, assignment ids
+    pairwise different per file -> [(kind, detail)]"""
+    from gen import savedumps
+    if run.get("rcA") != 0 or not os.path.isdir(run.get("aux_copy", "")):
+        return []
+    st, probs = savedumps.check_dumps(run["aux_copy"], "S.save")
+    if ctx is not None:
+        ctx.count("dump_hypotheses:files", st["files"])
+        ctx.count("dump_hypotheses:records", st["records"])
+        if st.get("unreadable"):
+            ctx.notes.append("dump hypothesis monitor: %d unreadable dump(s), e.g. %s" % (st["unreadable"], st.get("unreadable_example")))
+    return probs
+
+
+def savedumps_selftest():
+    from gen import savedumps
+    return savedumps.selftest()
+
+
 def oracle(ctx, disagreements, broken):
     rng = ctx.rng
     quick = ctx.tier == "quick"
@@ -1306,6 +1331,14 @@ def oracle(ctx, disagreements, broken):
             ctx.count("pipeline_pair")
             if r:
                 ctx.fail("reuse", {"kind": "reuse", "dataset": run["tag"], "seed": ctx.seed, "tier": ctx.tier}, r)
+            # G6 (hypothesis audit): `NoSuspendedInput` and pairwise different assignment ids per chromosome, on the
+            # dumps the real collecting stage wrote (hypotheses of memory_modes_same_saved_files and of C12's end-to-end
+            # theorems; nothing upstream is modelled, so they are monitored here)
+            for kind, detail in dump_hypothesis_problems(ctx, run):
+                ctx.fail(kind, {"kind": "dump_hyp", "dataset": run["tag"], "seed": ctx.seed, "tier": ctx.tier}, detail)
+        st = savedumps_selftest()
+        if st:
+            ctx.fail("monitor_selftest", {"kind": "monitor_selftest"}, st)
     finally:
         pipeline_cleanup()
     # reuse on generated saved files, real command line in-process (saving run in both memory modes, two restarts)
@@ -1377,6 +1410,16 @@ def replay(ctx, failure):
         return stream_case(inp["x"]) is not None
     if kind == "multimap":
         return multimap_case(inp["x"]) is not None
+    if kind == "monitor_selftest":
+        return savedumps_selftest() is not None
+    if kind == "dump_hyp":
+        c2 = vlib.Ctx(ID, inp.get("tier", "quick"), inp.get("seed", ctx.seed))
+        try:
+            pp = pipeline_pair(c2)
+            return any(k == failure["kind"] for r in pp["runs"] if r["tag"] == inp["dataset"]
+                       for k, _ in dump_hypothesis_problems(None, r))
+        finally:
+            pipeline_cleanup()
     if kind == "reuse":
         c2 = vlib.Ctx(ID, inp.get("tier", "quick"), inp.get("seed", ctx.seed))
         try:
